@@ -690,6 +690,12 @@ fn builders_fam(c: &mut Case) {
     scverif::builders::case(c, "C14")
 }
 
+/// the uniform api traits (Predictor / SupervisedEstimator / UnsupervisedEstimator / Transformer) behave
+/// exactly like the inherent methods
+fn api_paths_fam(c: &mut Case) {
+    scverif::apipaths::case(c, "C14")
+}
+
 fn main() {
     runner::main(Spec {
         property: "C14",
@@ -703,6 +709,7 @@ fn main() {
             "reference: cyclic Jacobi eigenvalues of the f64 covariance, cross-checked against a one-sided Jacobi SVD of the centred data (1e-12 of the trace), otherwise the case is inconclusive",
         ],
         families: vec![
+            Family::new("api_paths", 300, 3000, api_paths_fam),
             Family::new("builders", 300, 3000, builders_fam),
             Family::new("pca_cov", 5000, 80000, pca_cov),
             Family::new("pca_corr", 4000, 60000, pca_corr),
